@@ -494,3 +494,167 @@ pub fn batch_encode(seq: u64, ops: &[(Vec<u8>, Option<Vec<u8>>)]) -> Vec<u8> {
     b.set_starting_seq_number(seq);
     Vec::<u8>::from(&b)
 }
+
+// ---- fault injection (C08, bounded stand-in) ---------------------------------------------------
+// A FileSystem wrapper that fails the k-th counted call (create_file, open_file, rename,
+// remove_file, get_file_size, write/append on a file) once ("transient") or from then on
+// ("sticky").  Everything else is passed through to the crate's own in-memory file system.
+pub mod faults {
+    use super::*;
+    use std::collections::BTreeMap;
+    use std::io::{self, Seek, SeekFrom};
+    use std::path::PathBuf;
+    use std::sync::atomic::{AtomicBool, AtomicUsize, Ordering as AO};
+    use std::sync::Mutex;
+    use crate::fs::{FileLock, RandomAccessFile, ReadonlyRandomAccessFile};
+
+    pub struct FaultCtl {
+        pub count: AtomicUsize,
+        pub fail_at: AtomicUsize,
+        pub sticky: AtomicBool,
+        pub fired: Mutex<Vec<String>>,
+    }
+    impl FaultCtl {
+        fn hit(&self, what: &str, path: &Path) -> io::Result<()> {
+            let n = self.count.fetch_add(1, AO::SeqCst);
+            let at = self.fail_at.load(AO::SeqCst);
+            if at != usize::MAX && (n == at || (self.sticky.load(AO::SeqCst) && n > at)) {
+                let mut f = self.fired.lock().unwrap();
+                if f.len() < 4 { f.push(format!("#{} {} {}", n, what, path.display())); }
+                return Err(io::Error::new(io::ErrorKind::Other, "injected fault"));
+            }
+            Ok(())
+        }
+    }
+    pub struct FaultFs { pub inner: Arc<dyn FileSystem>, pub ctl: Arc<FaultCtl> }
+    struct FaultFile { inner: Box<dyn RandomAccessFile>, ctl: Arc<FaultCtl>, path: PathBuf }
+    impl Read for FaultFile { fn read(&mut self, b: &mut [u8]) -> io::Result<usize> { self.inner.read(b) } }
+    impl Seek for FaultFile { fn seek(&mut self, p: SeekFrom) -> io::Result<u64> { self.inner.seek(p) } }
+    impl Write for FaultFile {
+        fn write(&mut self, b: &[u8]) -> io::Result<usize> { self.ctl.hit("write", &self.path)?; self.inner.write(b) }
+        fn flush(&mut self) -> io::Result<()> { self.inner.flush() }
+    }
+    impl ReadonlyRandomAccessFile for FaultFile {
+        fn read_from(&self, b: &mut [u8], o: usize) -> io::Result<usize> { self.inner.read_from(b, o) }
+        fn len(&self) -> io::Result<u64> { self.inner.len() }
+    }
+    impl RandomAccessFile for FaultFile {
+        fn append(&mut self, b: &[u8]) -> io::Result<usize> { self.ctl.hit("append", &self.path)?; self.inner.append(b) }
+    }
+    impl FileSystem for FaultFs {
+        fn get_name(&self) -> String { "FaultFs".to_string() }
+        fn create_dir(&self, p: &Path) -> io::Result<()> { self.inner.create_dir(p) }
+        fn create_dir_all(&self, p: &Path) -> io::Result<()> { self.inner.create_dir_all(p) }
+        fn list_dir(&self, p: &Path) -> io::Result<Vec<PathBuf>> { self.inner.list_dir(p) }
+        fn open_file(&self, p: &Path) -> io::Result<Box<dyn ReadonlyRandomAccessFile>> { self.ctl.hit("open_file", p)?; self.inner.open_file(p) }
+        fn rename(&self, a: &Path, b: &Path) -> io::Result<()> { self.ctl.hit("rename", a)?; self.inner.rename(a, b) }
+        fn create_file(&self, p: &Path, append: bool) -> io::Result<Box<dyn RandomAccessFile>> {
+            self.ctl.hit("create_file", p)?;
+            Ok(Box::new(FaultFile { inner: self.inner.create_file(p, append)?, ctl: Arc::clone(&self.ctl), path: p.to_path_buf() }))
+        }
+        fn remove_file(&self, p: &Path) -> io::Result<()> { self.ctl.hit("remove_file", p)?; self.inner.remove_file(p) }
+        fn remove_dir(&self, p: &Path) -> io::Result<()> { self.inner.remove_dir(p) }
+        fn remove_dir_all(&self, p: &Path) -> io::Result<()> { self.inner.remove_dir_all(p) }
+        fn get_file_size(&self, p: &Path) -> io::Result<u64> { self.ctl.hit("get_file_size", p)?; self.inner.get_file_size(p) }
+        fn is_dir(&self, p: &Path) -> io::Result<bool> { self.inner.is_dir(p) }
+        fn lock_file(&self, p: &Path) -> io::Result<FileLock> { self.inner.lock_file(p) }
+    }
+
+    type World = BTreeMap<Vec<u8>, Vec<u8>>;
+    fn apply(w: &mut World, ws: &[(Vec<u8>, Option<Vec<u8>>)]) {
+        for (k, v) in ws { match v { Some(v) => { w.insert(k.clone(), v.clone()); } None => { w.remove(k); } } }
+    }
+
+    pub struct Outcome {
+        /// counted file-system calls of the run
+        pub calls: usize,
+        /// what the injected fault hit (first few)
+        pub fired: Vec<String>,
+        /// violations of C08 seen through the public API
+        pub bad: Vec<String>,
+        /// API results, for the report
+        pub trace: Vec<String>,
+    }
+
+    /// reads every key; the non-failing reads must agree with ONE of the possible worlds
+    fn check_reads(d: &DB, keys: &[Vec<u8>], worlds: &[World], allow_errors: bool, at: &str, bad: &mut Vec<String>, trace: &mut Vec<String>) {
+        let mut seen: Vec<(Vec<u8>, Option<Vec<u8>>)> = vec![];
+        for k in keys {
+            match d.get(ReadOptions::default(), k) {
+                Ok(v) => seen.push((k.clone(), Some(v))),
+                Err(crate::RainDBError::KeyNotFound) => seen.push((k.clone(), None)),
+                Err(e) => {
+                    trace.push(format!("{}: get {} -> error {}", at, hexs(k), e));
+                    if !allow_errors { bad.push(format!("{}: get {} fails with `{}` although no fault is active", at, hexs(k), e)); }
+                }
+            }
+        }
+        let ok = worlds.iter().any(|w| seen.iter().all(|(k, v)| w.get(k) == v.as_ref()));
+        if !ok {
+            let show: Vec<String> = seen.iter().map(|(k, v)| format!("{}={}", hexs(k), v.as_ref().map(|v| hexs(v)).unwrap_or("notfound".to_string()))).collect();
+            let w0: Vec<String> = worlds[0].iter().map(|(k, v)| format!("{}={}", hexs(k), hexs(v))).collect();
+            bad.push(format!("{}: reads [{}] match none of the {} states allowed by the acknowledged writes (acknowledged only: [{}])", at, show.join(" "), worlds.len(), w0.join(" ")));
+        }
+    }
+
+    /// Runs the history with the fault armed at counted call `fail_at` (None = no fault).
+    pub fn run(ops: &[DbOp], keys: &[Vec<u8>], fail_at: Option<usize>, sticky: bool, reuse: bool) -> Outcome {
+        let ctl = Arc::new(FaultCtl { count: AtomicUsize::new(0), fail_at: AtomicUsize::new(fail_at.unwrap_or(usize::MAX)), sticky: AtomicBool::new(sticky), fired: Mutex::new(vec![]) });
+        let mut options = DbOptions::with_memory_env();
+        options.create_if_missing = true;
+        options.reuse_log_files = reuse;
+        let inner = Arc::clone(&options.filesystem_provider);
+        options.filesystem_provider = Arc::new(FaultFs { inner, ctl: Arc::clone(&ctl) });
+        let mut bad = vec![];
+        let mut trace = vec![];
+        let mut worlds: Vec<World> = vec![World::new()];
+        let mut acked = 0usize;
+        let mut db = match DB::open(options.clone()) { Ok(d) => Some(d), Err(e) => { trace.push(format!("open -> Err {}", e)); None } };
+        for (i, op) in ops.iter().enumerate() {
+            let writes: Option<Vec<(Vec<u8>, Option<Vec<u8>>)>> = match op {
+                DbOp::Put(k, v) => Some(vec![(k.clone(), Some(v.clone()))]),
+                DbOp::Delete(k) => Some(vec![(k.clone(), None)]),
+                DbOp::Batch(b) => Some(b.clone()),
+                _ => None,
+            };
+            if let DbOp::Reopen(_) = op {
+                drop(db.take());
+                db = match DB::open(options.clone()) { Ok(d) => Some(d), Err(e) => { trace.push(format!("op{} reopen -> Err {}", i, e)); None } };
+                if let Some(d) = db.as_ref() { check_reads(d, keys, &worlds, true, &format!("after op{} (reopen)", i), &mut bad, &mut trace); }
+                continue;
+            }
+            let d = match db.as_ref() { Some(d) => d, None => continue };
+            if let Some(ws) = writes {
+                let r = d.apply(WriteOptions::default(), make_batch(&ws));
+                match r {
+                    Ok(()) => { acked += 1; for w in worlds.iter_mut() { apply(w, &ws); } trace.push(format!("op{} write -> Ok", i)); }
+                    Err(e) => {
+                        trace.push(format!("op{} write -> Err {}", i, e));
+                        if worlds.len() <= 32 {
+                            let mut more = worlds.clone();
+                            for w in more.iter_mut() { apply(w, &ws); }
+                            worlds.extend(more);
+                        }
+                    }
+                }
+            } else {
+                match op {
+                    DbOp::Flush => { let r = d.force_memtable_compaction(); trace.push(format!("op{} flush -> {}", i, if r.is_ok() { "Ok".to_string() } else { format!("Err {}", r.unwrap_err()) })); }
+                    DbOp::CompactAll => { d.compact_range(None..None); trace.push(format!("op{} compact", i)); }
+                    _ => {}
+                }
+            }
+            check_reads(d, keys, &worlds, true, &format!("after op{}", i), &mut bad, &mut trace);
+        }
+        // the fault goes away; the database is reopened
+        ctl.fail_at.store(usize::MAX, AO::SeqCst);
+        drop(db.take());
+        let calls = ctl.count.load(AO::SeqCst);
+        match DB::open(options.clone()) {
+            Ok(d) => check_reads(&d, keys, &worlds, false, "after the fault is gone and the database is reopened", &mut bad, &mut trace),
+            Err(e) => { if acked > 0 { bad.push(format!("after the fault is gone the database does not open (`{}`) although {} writes were acknowledged", e, acked)); } }
+        }
+        let fired = ctl.fired.lock().unwrap().clone();
+        Outcome { calls, fired, bad, trace }
+    }
+}
